@@ -94,6 +94,38 @@ def slow_agent_two_sessions(chk: Check, rng):
             chk.disagree("Calibrator+RLScheduler (slow agent, two calls) != BlackIt.Calibrator", {"scenario": scn_json(scn), "impl": (x or "")[:300], "model": (y or "")[:300]})
 
 
+def rl_zero_batch_sessions(chk: Check, rng):
+    """RL sessions that end before any batch ran (calibrate(0)), first and in between: every session opens with a decision of the agent; a decision
+    that was never executed is dropped with its session; the first batch ever is the bootstrap batch; every other batch is produced by the
+    sampler the agent chose for it, in the order of its decisions within that session"""
+    shapes = [[0, 3], [0, 0, 2], [2, 0, 2], [0, 1, 2], [1, 0, 0, 3]]
+    for calls in (shapes if chk.tier == "quick" else shapes * 4):
+        scn = ch.gen_scn(rng, sched="rl", max_batches=2)
+        scn.folder, scn.conv, scn.faults, scn.verbose, scn.agent = False, None, [], False, "scripted"
+        k = len(scn.lineup)
+        scn.actions = [(j * 5 + 2) % k for j in range(60)] if k > 1 else [0] * 60
+        scn.ops = [("C", n) for n in calls]
+        with warnings.catch_warnings():
+            warnings.simplefilter("ignore")
+            lines, info = ch.run_real(scn)
+        want, pos, first = [], 0, True
+        for n in calls:
+            nb = n - 1 if (first and n > 0) else n          # the very first batch is the bootstrap batch: no decision is consumed for it
+            if n > 0:
+                first = False
+            want += scn.actions[pos:pos + nb]
+            pos += nb + 1                                   # one more decision than executed batches: the last one dies with the session
+        got = info["actions"]
+        chk.case(["rl-zero-batch", scn_json(scn)], True, {"calls": calls, "scripted": scn.actions[:pos + 1], "executed": got, "expected": want})
+        chk.count("rl:sessions_without_batches")
+        if got != want:
+            chk.fail(f"RL scheduler, calls calibrate{tuple(calls)}: executed actions {got}, the agent's decisions for those batches were {want} "
+                     f"(a decision of a session that ran no batch must not be executed in a later session)", {"case": scn_json(scn)})
+        ok, kk, x, y = ch.compare(scn, lines, info)
+        if not ok:
+            chk.disagree("Calibrator+RLScheduler (sessions without batches) != BlackIt.Calibrator", {"scenario": scn_json(scn), "impl": (x or "")[:300], "model": (y or "")[:300]})
+
+
 def same_object_in_two_slots(chk: Check, rng):
     """a line-up in which one sampler object fills several slots ([a, b, a]): batch i is still produced by slot i mod n, with that slot's
     batch size; RL: the agent's index still addresses the supplied list.  Real built-in samplers, real calibrator, toy model."""
@@ -184,6 +216,7 @@ def run(chk: Check):
             chk.disagree("Calibrator+RoundRobinScheduler != BlackIt.Calibrator (scheduling)",
                          {"scenario": scn_json(scn), "op_index": k, "fields": ch.diff_fields(a, b) if k is not None and k >= 0 else None, "impl": a[:500], "model": b[:500]})
     slow_agent_two_sessions(chk, rng)
+    rl_zero_batch_sessions(chk, rng)
     same_object_in_two_slots(chk, rng)
     # RL
     m = 40 if chk.tier == "quick" else 600
